@@ -9,7 +9,7 @@ from .. import cases, monitors
 from . import _align_common as ac
 
 TITLE = "Computations never modify their inputs; derived continua are independent"
-DECIDING = ["M-PURE", "M-INDEPENDENT", "M-PURE-AFTER-FAILURE", "M-PURE-SHARED-COMPONENT"]
+DECIDING = ["M-PURE", "M-INDEPENDENT", "M-PURE-AFTER-FAILURE", "M-PURE-SHARED-COMPONENT", "M-LIVE-CATEGORIES"]
 LEVEL = "exploration"
 RULE = ("a case = one random labelled continuum + one pooled dissimilarity; every public computation entry point is "
         "called on it (best / soft / fast alignment, candidate enumeration, compute_gamma in the three modes with both "
@@ -17,7 +17,7 @@ RULE = ("a case = one random labelled continuum + one pooled dissimilarity; ever
         "gamma_k_disorder, GammaResults.gamma / gamma_cat / gamma_k, sampler init + draws, CorpusShufflingTool "
         "constructor (with extra categories), corpus_from_reference, each *_shuffle, corpus_shuffle, copy, merge, +, "
         "__getitem__, ==, iteration, to_csv; computations that fail part-way on a unit with an unknown label; computations "
-        "with one of two combined dissimilarities that share a component object) between snapshots (annotators, units, categories, bounds, window size) of "
+        "with one of two combined dissimilarities that share a component object; a dissimilarity built from the continuum's live category set, the continuum then given new labels) between snapshots (annotators, units, categories, bounds, window size) of "
         "every continuum argument and (delta_empty, alpha, beta, categories, matrix bytes, kernel identity, components) "
         "of the dissimilarity; then each derived continuum (copy, merge result, + result, sampler outputs, chance "
         "samples of a gamma, generated corpora, c[annotator]) and the source are mutated in turn by a random script "
@@ -153,6 +153,25 @@ def check_case(ctx, case):
         else:
             c.bound_inf, c.bound_sup = lo - 100.0, hi + 250.0
         ctx.observe("input_variant", "hand-set-bounds:" + case["hand_bounds"])
+    if cases.spec_labels(cspec):
+        # a dissimilarity built the documented way, from the continuum's own (live) category set: editing the continuum
+        # afterwards must leave the dissimilarity as it was
+        c2 = cases.build_continuum(cspec)
+        k = len(c2.categories)
+        mat = np.array([[0.0 if i == j else 0.25 + 0.5 * abs(i - j) / max(1, k) for j in range(k)] for i in range(k)], dtype=np.float32)
+        try:
+            live = [pa.PrecomputedCategoricalDissimilarity(c2.categories, mat, delta_empty=1.0),
+                    pa.CombinedCategoricalDissimilarity(cat_dissim=pa.LevenshteinCategoricalDissimilarity(c2.categories))]
+            before = [monitors.snapshot_dissim(d_) for d_ in live]
+            c2.add(names[0], Segment(-500.0, -499.0), " a new label that sorts first")
+            c2.add(names[-1], Segment(-400.0, -399.0), "zzz a new label that sorts last")
+            ctx.count("M-LIVE-CATEGORIES")
+            for d_, b_ in zip(live, before):
+                diff = monitors.diff_snap(b_, monitors.snapshot_dissim(d_))
+                if diff:
+                    ctx.fail("dissimilarity-modified-by:continuum-edit", {"difference": diff[:6], "class": type(d_).__name__}, monitor="M-LIVE-CATEGORIES")
+        except Exception as e:
+            ctx.fail_exc(f"live-category-set:raises:{type(e).__name__}", e, monitor="M-LIVE-CATEGORIES")
     P = lambda name, **kw: Pure(ctx, name, continua=kw.pop("continua", [c]), dissims=kw.pop("dissims", [dissim]), **kw)
     np.random.seed(case["np_seed"])
     # ---- alignments and disorders
